@@ -18,6 +18,15 @@ from .relang import DFA, Alphabet, Lang, Unsupported, collect_atoms, complement,
 import re._parser as P
 
 
+class Raises(Unsupported):
+    """The interpreted function raises for the inputs in ``lang`` (an unpacking that cannot succeed)."""
+
+    def __init__(self, msg: str, lang) -> None:
+        super().__init__(msg)
+        self.lang = lang
+
+
+
 class _Subst(ast.NodeTransformer):
     """Replace a loop variable by a string constant (unrolling any()/all() over constant characters)."""
 
@@ -275,6 +284,26 @@ class StrLang:
                             raise Unsupported("partition target")
                         views[t.id] = (kind, d, parent)
                     continue
+                sp = self._split1(v, views)
+                if sp is not None and isinstance(tgt, ast.Name):
+                    views[tgt.id] = sp  # pieces = s.split(d, 1)
+                    continue
+                if sp is not None and isinstance(tgt, (ast.Tuple, ast.List)) and len(tgt.elts) == 2 and isinstance(tgt.elts[0], ast.Name):
+                    _, d, parent = sp
+                    if isinstance(tgt.elts[1], ast.Name):
+                        # head, tail = s.split(d, 1): raises when d is absent; where it runs, the parts of the first d
+                        self._must_hold(pc, self.lift(L.contains(d), parent), "unpacking two parts of a split that may have one")
+                        views[tgt.elts[0].id] = ("head", d, parent)
+                        views[tgt.elts[1].id] = ("tail", d, parent)
+                        continue
+                    if isinstance(tgt.elts[1], ast.Starred) and isinstance(tgt.elts[1].value, ast.Name):
+                        views[tgt.elts[0].id] = ("head", d, parent)
+                        views[tgt.elts[1].value.id] = ("rest1", d, parent)
+                        continue
+                if isinstance(tgt, (ast.Tuple, ast.List)) and len(tgt.elts) == 1 and isinstance(tgt.elts[0], ast.Name) and isinstance(v, ast.Name) and v.id in views and views[v.id][0] == "rest1":
+                    self._must_hold(pc, self.lift(L.contains(views[v.id][1]), views[v.id][2]), "unpacking the rest of a split that may be empty")
+                    views[tgt.elts[0].id] = ("tail", views[v.id][1], views[v.id][2])
+                    continue
                 if (
                     isinstance(tgt, ast.Name)
                     and isinstance(v, ast.Call)
@@ -420,7 +449,40 @@ class StrLang:
                 pass
         raise Unsupported(f"pattern `{ast.unparse(e)[:40]}` is not a module constant")
 
+    def _must_hold(self, pc: DFA, cond: DFA, what: str) -> None:
+        """The statement raises for inputs outside ``cond``: every input that reaches it must be inside."""
+        from .relang import witness
+
+        bad = minimise(inter(pc, complement(cond)))
+        w = witness(bad)
+        if w is not None:
+            raise Raises(f"{what} (e.g. for {self.alpha.word(w)!r}): the validator would raise instead of answering", bad)
+
+    def _split1(self, v, views):
+        """``s.split(d, 1)`` (or a name bound to it): ('split1', d, view of s)."""
+        if isinstance(v, ast.Name) and v.id in views and views[v.id][0] == "split1":
+            return views[v.id]
+        if isinstance(v, ast.Call) and isinstance(v.func, ast.Attribute) and v.func.attr == "split" and isinstance(v.func.value, ast.Name) and v.func.value.id in views and views[v.func.value.id][0] not in ("truth", "idx", "split1", "rest1"):
+            ms = v.args[1] if len(v.args) == 2 else next((k.value for k in v.keywords if k.arg == "maxsplit"), None)
+            if len(v.args) in (1, 2) and isinstance(ms, ast.Constant) and ms.value == 1 and all(k.arg == "maxsplit" for k in v.keywords):
+                d = self._const_str(v.args[0])
+                if len(d) != 1:
+                    raise Unsupported("multi-character split separator")
+                return ("split1", d, views[v.func.value.id])
+        return None
+
     def _view_of(self, e, views):
+        if isinstance(e, ast.Subscript) and isinstance(e.value, ast.Name) and e.value.id in views and views[e.value.id][0] in ("split1", "rest1") and isinstance(e.slice, (ast.Constant, ast.UnaryOp)):
+            try:
+                k = ast.literal_eval(e.slice)
+            except Exception:  # noqa: BLE001
+                k = None
+            kind, d, parent = views[e.value.id]
+            if kind == "split1" and k == 0:
+                return ("head", d, parent)
+            if kind == "split1" and k == 1 or kind == "rest1" and k in (0, -1):
+                return ("tail", d, parent)
+            raise Unsupported(f"index `{ast.unparse(e)[:30]}` of a split")
         if isinstance(e, ast.Call) and isinstance(e.func, ast.Attribute) and e.func.attr in ("casefold", "lower", "upper") and not e.args and not e.keywords:
             if e.func.attr not in self.fold_kinds:
                 raise Unsupported(f"str.{e.func.attr}() view without a fold-uniform alphabet")
@@ -452,7 +514,23 @@ class StrLang:
         if isinstance(e, ast.Name) and e.id in views:
             if views[e.id][0] == "truth":
                 return views[e.id][1]
+            if views[e.id][0] == "rest1":
+                return self.lift(L.contains(views[e.id][1]), views[e.id][2])  # the part after the first d exists
+            if views[e.id][0] == "split1":
+                return L.SIGMA_STAR  # split always yields at least one piece
             return self.lift(L.nonempty(), views[e.id])
+        if isinstance(e, ast.Compare) and len(e.ops) == 1 and isinstance(e.left, ast.Call) and isinstance(e.left.func, ast.Name) and e.left.func.id == "len" and len(e.left.args) == 1 and isinstance(e.left.args[0], ast.Name) and e.left.args[0].id in views and views[e.left.args[0].id][0] in ("split1", "rest1") and isinstance(e.comparators[0], ast.Constant) and isinstance(e.comparators[0].value, int):
+            # the number of pieces is 2 where d occurs, else 1 (for the starred rest: 1 / 0)
+            kind, d, parent = views[e.left.args[0].id]
+            present = self.lift(L.contains(d), parent)
+            hi, lo = (2, 1) if kind == "split1" else (1, 0)
+            import operator as _o
+
+            cmpf = {ast.Eq: _o.eq, ast.NotEq: _o.ne, ast.Lt: _o.lt, ast.LtE: _o.le, ast.Gt: _o.gt, ast.GtE: _o.ge}.get(type(e.ops[0]))
+            if cmpf is not None:
+                n = e.comparators[0].value
+                t_hi, t_lo = cmpf(hi, n), cmpf(lo, n)
+                return union(inter(present, L.SIGMA_STAR if t_hi else L.EMPTY), inter(complement(present), L.SIGMA_STAR if t_lo else L.EMPTY))
         if isinstance(e, ast.UnaryOp) and isinstance(e.op, ast.Not):
             return complement(self._truth(e.operand, views))
         if isinstance(e, ast.BoolOp):
@@ -466,6 +544,12 @@ class StrLang:
             return union(inter(c, self._truth(e.body, views)), inter(complement(c), self._truth(e.orelse, views)))
         if isinstance(e, ast.Compare) and len(e.ops) == 1:
             o, a, b = e.ops[0], e.left, e.comparators[0]
+            if isinstance(o, (ast.Eq, ast.NotEq)):
+                # <str-valued call> == "": the string is empty, i.e. falsy
+                for x, y in ((a, b), (b, a)):
+                    if isinstance(y, ast.Constant) and y.value == "" and isinstance(x, ast.Call) and isinstance(x.func, ast.Attribute) and x.func.attr in ("strip", "lstrip", "rstrip") and not x.args and not x.keywords:
+                        r = self._truth(x, views)
+                        return complement(r) if isinstance(o, ast.Eq) else r
             if isinstance(o, (ast.In, ast.NotIn)) and isinstance(b, ast.Name) and b.id in views:
                 r = self.lift(L.contains(self._const_str(a)), views[b.id])
                 return complement(r) if isinstance(o, ast.NotIn) else r
